@@ -1,4 +1,4 @@
-import PersimVerif.Lemmas.GraphFallback
+import PersimVerif.Lemmas.GraphExtra
 import PersimVerif.Lemmas.GraphDispatch
 
 /-!
@@ -131,6 +131,44 @@ example : (fun x : Nat => if x = 0 then 0 else 1) 5 = 1 ∧ ∀ x : Nat, (if x =
   refine ⟨rfl, fun x => ?_⟩
   by_cases h : x = 0 <;> simp [h]
 
+/-- **Self-loops / diagonal entries never matter** (`shortest_path` gives `d(i,i) = 0` whatever `A[i][i]`
+    is): two well-formed inputs of the same size that agree off the diagonal get the same result. -/
+theorem diagonal_irrelevant (A B : Mat) (hA : isSquare A = true) (hB : isSquare B = true)
+    (hl : A.length = B.length) (h : ∀ i j, i ≠ j → entry A i j = entry B i j) : makeDist A = makeDist B := by
+  have e : bfsAll (adjOf A) = bfsAll (adjOf B) := by
+    apply bfsAll_congr_offdiag _ _ (adjOf_Symm A) (adjOf_Symm B) (by simp [hl])
+    intro i j hij
+    by_cases hi : i < A.length
+    · by_cases hj : j < A.length
+      · rw [ent_adjOf A hi hj, ent_adjOf B (hl ▸ hi) (hl ▸ hj), h i j hij, h j i (Ne.symm hij)]
+      · rw [ent_adjOf_ge A (Or.inr (Nat.le_of_not_lt hj)), ent_adjOf_ge B (Or.inr (hl ▸ Nat.le_of_not_lt hj))]
+    · rw [ent_adjOf_ge A (Or.inl (Nat.le_of_not_lt hi)), ent_adjOf_ge B (Or.inl (hl ▸ Nat.le_of_not_lt hi))]
+  unfold makeDist
+  rw [hA, hB]
+  simp only [if_true, e]
+
+/-- so the STRICT upper triangle (`np.triu(A, 1)`) of a symmetric-pattern matrix is as good as the matrix -/
+theorem strict_upper_same_result (S : Mat) (hsq : isSquare S = true)
+    (hS : ∀ i j, entry S i j = 0 ↔ entry S j i = 0) : makeDist (strictUpper S) = makeDist S := by
+  have hn := ((isSquare_iff S).1 hsq).1
+  have h1 : makeDist (strictUpper S) = makeDist (upper S) := by
+    apply diagonal_irrelevant _ _ (isSquare_tab _ hn) (isSquare_upper S hsq) (by simp [upper])
+    intro i j hij
+    by_cases hi : i < S.length
+    · by_cases hj : j < S.length
+      · rw [entry_upper S hi hj]
+        simp only [entry, ent_tab 0 _ hi hj]
+        by_cases h1 : i < j
+        · simp [h1, Nat.le_of_lt h1]
+        · have : ¬ i ≤ j := by omega
+          simp [h1, this]
+      · simp [entry, upper, ent_tab_of_ge_right 0 _ (Nat.le_of_not_lt hj)]
+    · simp [entry, upper, ent_tab_of_ge_left 0 _ (Nat.le_of_not_lt hi)]
+  rw [h1]
+  exact format_irrelevant _ _ (isSquare_upper S hsq) hsq (upper_of_symmetric S hS)
+
+example : makeDist (strictUpper [[5,1,0],[1,0,3],[0,3,9]]) = makeDist [[5,1,0],[1,0,3],[0,3,9]] := by decide
+
 /-! ## 2. Shortest paths: BFS is correct, and commutes with relabelling -/
 
 /-- **Shortest-path contract, discharged for the model's BFS**: for the adjacency of any input, the entry
@@ -152,6 +190,58 @@ theorem relabel_equivariant (A : Mat) (p : List Nat) (hp : p.Perm (List.range A.
 
 example : [2, 0, 1].Perm (List.range ([[0,1,0],[0,0,1],[0,0,0]] : Mat).length) := by decide
 example : sub 0 [2, 0, 1] [[0,1,0],[0,0,1],[0,0,0]] = [[0,0,0],[0,0,1],[1,0,0]] := by decide
+
+private theorem isSquare_sub_perm (A : Mat) (hsq : isSquare A = true) (p : List Nat)
+    (hp : p.Perm (List.range A.length)) : isSquare (sub 0 p A) = true := by
+  have hn := ((isSquare_iff A).1 hsq).1
+  have hpl : p.length = A.length := by simpa using hp.length_eq
+  rw [isSquare_iff]
+  refine ⟨by simp [hpl, hn], ?_⟩
+  intro r hr
+  rw [row_length_sub 0 p A r hr]; simp
+
+/-- for a CONNECTED graph the whole result is equivariant: the relabelled graph gives the relabelled
+    distance matrix, no warning, the same dtype.  (A disconnected graph with several largest components may
+    select a different one after relabelling — the statement leaves that choice to the labelling.) -/
+theorem relabel_connected (A : Mat) (hsq : isSquare A = true) (p : List Nat)
+    (hp : p.Perm (List.range A.length)) (r : DistResult) (h : makeDist A = .ok r) (hw : r.warned = false) :
+    makeDist (sub 0 p A) = .ok ⟨sub 0 p r.dist, false, r.intType⟩ := by
+  obtain ⟨hd, hwarn, ht⟩ := (makeDist_ok_iff A hsq r).1 h
+  have hsym := adjOf_Symm A
+  have hp' : p.Perm (List.range (adjOf A).length) := by simpa using hp
+  have hpl : p.length = A.length := by simpa using hp.length_eq
+  have hinf : hasInf (bfsAll (adjOf A)) = false := by rw [← hwarn, hw]
+  have hadj : adjOf (sub 0 p A) = sub false p (adjOf A) :=
+    adjOf_sub A p (fun x hx => List.mem_range.1 (hp.mem_iff.1 hx))
+  have hinf' : hasInf (bfsAll (adjOf (sub 0 p A))) = false := by
+    rw [hadj]
+    exact (hasInf_false_iff_connected _ (symm_sub (adjOf A) p hp' hsym)).2
+      (connected_sub (adjOf A) hsym p hp' ((hasInf_false_iff_connected _ hsym).1 hinf))
+  have hblock : blockOf (adjOf (sub 0 p A)) = sub 0 p (blockOf (adjOf A)) := by
+    rw [blockOf_connected _ hinf', blockOf_connected _ hinf]
+    have hl' : (adjOf (sub 0 p A)).length = A.length := by simp [hpl]
+    rw [hl']
+    refine mat_ext 0 (n := A.length) (m := A.length) _ _ (by simp) (by simp [hpl]) (row_length_tab _) ?_ ?_
+    · intro r hr; rw [row_length_sub 0 p _ r hr, hpl]
+    · intro i j hi hj
+      rw [ent_tab 0 _ hi hj, ent_sub 0 p _ (by omega) (by omega)]
+      have hi' : i < (adjOf A).length := by simpa using hi
+      have hj' : j < (adjOf A).length := by simpa using hj
+      have hpi := perm_lt (adjOf A) p hp' hi'
+      have hpj := perm_lt (adjOf A) p hp' hj'
+      rw [ent_tab 0 _ (by simpa using hpi) (by simpa using hpj), hadj, dist_sub (adjOf A) p hp' hsym hi' hj']
+  apply (makeDist_ok_iff (sub 0 p A) (isSquare_sub_perm A hsq p hp) _).2
+  refine ⟨by rw [hblock, hd], hinf'.symm, ?_⟩
+  rw [hblock, maxEntry_sub_perm (blockOf (adjOf A)) A.length ?_ ?_ p hp]
+  · exact ht
+  · rw [blockOf_connected _ hinf]; simp
+  · intro r hr
+    rw [blockOf_connected _ hinf] at hr
+    simpa using row_length_tab _ r hr
+
+example : makeDist [[0,1,0],[0,0,1],[0,0,0]] = .ok ⟨[[0,1,2],[1,0,1],[2,1,0]], false, .i8⟩ := by decide
+example : makeDist (sub 0 [2, 0, 1] [[0,1,0],[0,0,1],[0,0,0]]) =
+    .ok ⟨sub 0 [2, 0, 1] [[0,1,2],[1,0,1],[2,1,0]], false, .i8⟩ := by decide
 
 /-! ## 3. Graceful degradation: the largest-component fallback -/
 
@@ -261,6 +351,74 @@ theorem connected_no_fallback (A : Mat) (hsq : isSquare A = true) (hn : A.length
     have e2 : vtx (adjOf A) t = t := by simp [vtx, hsel, List.getD_eq_getElem?_getD, ht]
     rw [e1, e2, ← hd] at this
     exact isDist_of_dist (adjOf A) hsym (by simpa using hs) (by simpa using ht) this
+
+/-- **Component labels are in the order of first vertices** (scipy's labelling): `rep v` is the smallest vertex
+    joined to `v` by a walk, two vertices have the same label iff they are joined, labels increase with the
+    first vertex of the component and are `< numComponents`. -/
+theorem labels_in_first_vertex_order (A : Mat) {u v : Nat} (hu : u < A.length) (hv : v < A.length) :
+    rep (bfsAll (adjOf A)) v ≤ v ∧
+    (∃ k, Walk (Adj (adjOf A)) k (rep (bfsAll (adjOf A)) v) v) ∧
+    (∀ w, w < rep (bfsAll (adjOf A)) v → ∀ k, ¬ Walk (Adj (adjOf A)) k w v) ∧
+    (label (bfsAll (adjOf A)) u = label (bfsAll (adjOf A)) v ↔ ∃ k, Walk (Adj (adjOf A)) k u v) ∧
+    (label (bfsAll (adjOf A)) u < label (bfsAll (adjOf A)) v ↔
+      rep (bfsAll (adjOf A)) u < rep (bfsAll (adjOf A)) v) ∧
+    label (bfsAll (adjOf A)) v < numComponents (bfsAll (adjOf A)) := by
+  have hsym := adjOf_Symm A
+  have hu' : u < (adjOf A).length := by simpa using hu
+  have hv' : v < (adjOf A).length := by simpa using hv
+  have walk_of_reach : ∀ a b, Reach (adjOf A) a b → ∃ k, Walk (Adj (adjOf A)) k a b := by
+    intro a b hab
+    obtain ⟨d, hd⟩ := (reach_iff _ a b).1 hab
+    have l := reach_lt (adjOf A) hab
+    exact ⟨d, (isDist_of_dist _ hsym l.1 l.2 hd).1⟩
+  have reach_of_walk : ∀ a b k, a < (adjOf A).length → Walk (Adj (adjOf A)) k a b → Reach (adjOf A) a b := by
+    intro a b k ha hw
+    obtain ⟨d, _, hd⟩ := dist_of_walk _ hsym ha hw
+    exact (reach_iff _ a b).2 ⟨d, hd⟩
+  obtain ⟨s1, s2, s3⟩ := rep_spec (adjOf A) hsym hv'
+  refine ⟨s1, walk_of_reach _ _ s2, ?_, ?_, ?_, label_lt (adjOf A) hsym hv'⟩
+  · intro w hw k hwk
+    exact s3 w hw (reach_of_walk w v k (by omega) hwk)
+  · rw [label_eq_iff (adjOf A) hsym hu' hv']
+    constructor
+    · intro h; exact walk_of_reach _ _ (reach_of_rep_eq (adjOf A) hsym hu' hv' h)
+    · rintro ⟨k, hw⟩; exact rep_eq_of_reach (adjOf A) hsym (reach_of_walk u v k hu' hw)
+  · rw [label_eq, label_eq]
+    constructor
+    · intro h
+      rcases Nat.lt_or_ge (rep (bfsAll (adjOf A)) u) (rep (bfsAll (adjOf A)) v) with h' | h'
+      · exact h'
+      · have := countRoots_mono (bfsAll (adjOf A)) h'; omega
+    · intro h
+      exact countRoots_lt _ h (rep_rep (adjOf A) hsym hu')
+
+/-- **The FIRST largest component is selected** (`np.unique` sorts the labels, `np.argmax` returns the first
+    maximum): the selected label has the maximal count, every earlier label has a strictly smaller one, and
+    the kept vertices are exactly those carrying it. -/
+theorem largest_is_first_maximum (A : Mat) (hsq : isSquare A = true) :
+    ∃ h : largestLabel (bfsAll (adjOf A)) <
+        (sizes (labels (bfsAll (adjOf A))) (numComponents (bfsAll (adjOf A)))).length,
+      (∀ l (hl : l < (sizes (labels (bfsAll (adjOf A))) (numComponents (bfsAll (adjOf A)))).length),
+        (sizes (labels (bfsAll (adjOf A))) (numComponents (bfsAll (adjOf A))))[l] ≤
+          (sizes (labels (bfsAll (adjOf A))) (numComponents (bfsAll (adjOf A))))[largestLabel (bfsAll (adjOf A))]) ∧
+      (∀ l (hl : l < largestLabel (bfsAll (adjOf A))),
+        (sizes (labels (bfsAll (adjOf A))) (numComponents (bfsAll (adjOf A))))[l]'(by omega) <
+          (sizes (labels (bfsAll (adjOf A))) (numComponents (bfsAll (adjOf A))))[largestLabel (bfsAll (adjOf A))]) ∧
+      ∀ v, v ∈ largestComponent (bfsAll (adjOf A)) ↔
+        v < A.length ∧ label (bfsAll (adjOf A)) v = largestLabel (bfsAll (adjOf A)) := by
+  have hn : 0 < (adjOf A).length := by simpa using ((isSquare_iff A).1 hsq).1
+  have hc : 0 < numComponents (bfsAll (adjOf A)) :=
+    Nat.lt_of_le_of_lt (Nat.zero_le _) (label_lt (adjOf A) (adjOf_Symm A) hn)
+  have hne : sizes (labels (bfsAll (adjOf A))) (numComponents (bfsAll (adjOf A))) ≠ [] := by
+    intro h
+    have := congrArg List.length h
+    simp [sizes] at this
+    omega
+  obtain ⟨h1, h2, h3⟩ := argmaxFirst_spec _ hne
+  refine ⟨h1, h2, h3, fun v => ?_⟩
+  have := mem_members (adjOf A) (largestLabel (bfsAll (adjOf A))) v
+  unfold largestComponent
+  simpa using this
 
 /-- the path 0 – 1 – 2 is connected (non-vacuity of `connected_no_fallback`) -/
 example : hasInf (bfsAll (adjOf [[0,1,0],[0,0,1],[0,0,0]])) = false := by decide
@@ -465,6 +623,77 @@ theorem collection_format_irrelevant (As Bs : List Mat) (hl : As.length = Bs.len
   simp only [hl, collect_congr est As Bs hmk]
 
 end dispatch
+
+/-! ## 6. Specification level: the distance being bracketed does not depend on the labelling
+
+  `estimate` brackets the modified Gromov–Hausdorff distance of the two metric spaces it is handed (C05).
+  Together with `relabel_connected` the following shows that a relabelled graph yields brackets of the SAME
+  distance: `2·mGH(X, Y) ≤ c` is invariant under relabelling the points of `X` (and, by symmetry of the
+  definition, of `Y`). -/
+
+/-- `f` maps the space with distance matrix `DX` into the one with `DY` with distortion `≤ c` -/
+def DisLe (DX DY : Mat) (f : Nat → Nat) (c : Nat) : Prop :=
+  (∀ i, i < DX.length → f i < DY.length) ∧
+  ∀ i j, i < DX.length → j < DX.length →
+    entry DX i j ≤ entry DY (f i) (f j) + c ∧ entry DY (f i) (f j) ≤ entry DX i j + c
+
+/-- `2·mGH(X, Y) ≤ c`: maps of distortion `≤ c` exist in both directions (Mémoli's modified distance) -/
+def TwiceMGHLe (DX DY : Mat) (c : Nat) : Prop := (∃ f, DisLe DX DY f c) ∧ ∃ g, DisLe DY DX g c
+
+theorem TwiceMGHLe.symm {DX DY : Mat} {c : Nat} (h : TwiceMGHLe DX DY c) : TwiceMGHLe DY DX c := ⟨h.2, h.1⟩
+
+/-- **`mGH_relabel_invariant`** (spec level) -/
+theorem mGH_relabel_invariant (DX DY : Mat) (p : List Nat) (hp : p.Perm (List.range DX.length)) (c : Nat) :
+    TwiceMGHLe (sub 0 p DX) DY c ↔ TwiceMGHLe DX DY c := by
+  have hp' : p.Perm (List.range (adjOf DX).length) := by simpa using hp
+  have hpl : p.length = DX.length := by simpa using hp.length_eq
+  have hl : (sub 0 p DX).length = DX.length := by simp [hpl]
+  have P_lt : ∀ a, a < DX.length → p.getD a 0 < DX.length := fun a ha => by
+    simpa using perm_lt (adjOf DX) p hp' (by simpa using ha)
+  have I_lt : ∀ b, b < DX.length → p.idxOf b < DX.length := fun b hb => by
+    rw [← hpl]; exact List.idxOf_lt_length_of_mem (hp.mem_iff.2 (List.mem_range.2 hb))
+  have PI : ∀ b, b < DX.length → p.getD (p.idxOf b) 0 = b := fun b hb => by
+    have h := I_lt b hb
+    have h' : p.idxOf b < p.length := by omega
+    simp [List.getD_eq_getElem?_getD, List.getElem?_eq_getElem h', List.getElem_idxOf h']
+  have E : ∀ a b, a < DX.length → b < DX.length →
+      entry (sub 0 p DX) a b = entry DX (p.getD a 0) (p.getD b 0) := fun a b ha hb => by
+    unfold entry; exact ent_sub 0 p DX (by omega) (by omega)
+  constructor
+  · rintro ⟨⟨f, hf1, hf2⟩, ⟨g, hg1, hg2⟩⟩
+    refine ⟨⟨fun b => f (p.idxOf b), ?_, ?_⟩, ⟨fun y => p.getD (g y) 0, ?_, ?_⟩⟩
+    · intro i hi; exact hf1 _ (by rw [hl]; exact I_lt i hi)
+    · intro i j hi hj
+      have := hf2 _ _ (by rw [hl]; exact I_lt i hi) (by rw [hl]; exact I_lt j hj)
+      rwa [E _ _ (I_lt i hi) (I_lt j hj), PI i hi, PI j hj] at this
+    · intro y hy; exact P_lt _ (by have := hg1 y hy; rwa [hl] at this)
+    · intro y y' hy hy'
+      have h1 := hg1 y hy; have h2 := hg1 y' hy'
+      rw [hl] at h1 h2
+      have := hg2 y y' hy hy'
+      rwa [E _ _ h1 h2] at this
+  · rintro ⟨⟨f, hf1, hf2⟩, ⟨g, hg1, hg2⟩⟩
+    refine ⟨⟨fun a => f (p.getD a 0), ?_, ?_⟩, ⟨fun y => p.idxOf (g y), ?_, ?_⟩⟩
+    · intro i hi; rw [hl] at hi; exact hf1 _ (P_lt i hi)
+    · intro i j hi hj
+      rw [hl] at hi hj
+      rw [E i j hi hj]
+      exact hf2 _ _ (P_lt i hi) (P_lt j hj)
+    · intro y hy; rw [hl]; exact I_lt _ (hg1 y hy)
+    · intro y y' hy hy'
+      rw [E _ _ (I_lt _ (hg1 y hy)) (I_lt _ (hg1 y' hy')), PI _ (hg1 y hy), PI _ (hg1 y' hy')]
+      exact hg2 y y' hy hy'
+
+/-- non-vacuity: the path on 3 points and the single point are at `2·mGH = 2` (and not `≤ 1`) -/
+example : TwiceMGHLe [[0,1,2],[1,0,1],[2,1,0]] [[0]] 2 :=
+  ⟨⟨fun _ => 0, by decide, fun i j hi hj =>
+      (by decide : ∀ i, i < 3 → ∀ j, j < 3 →
+        entry [[0,1,2],[1,0,1],[2,1,0]] i j ≤ entry [[0]] 0 0 + 2 ∧
+        entry [[0]] 0 0 ≤ entry [[0,1,2],[1,0,1],[2,1,0]] i j + 2) i hi j hj⟩,
+   ⟨fun _ => 0, by decide, fun i j hi hj =>
+      (by decide : ∀ i, i < 1 → ∀ j, j < 1 →
+        entry [[0]] i j ≤ entry [[0,1,2],[1,0,1],[2,1,0]] 0 0 + 2 ∧
+        entry [[0,1,2],[1,0,1],[2,1,0]] 0 0 ≤ entry [[0]] i j + 2) i hi j hj⟩⟩
 
 /-! non-vacuity of the dispatch theorems: a concrete `estimate` (sizes of the two spaces; the "RNG state"
     counts the calls) on three graphs, one of them disconnected -/
